@@ -250,6 +250,9 @@ def near_miss(t, rng, ctx="val", depth=0):
 def base_types(rng, n_random, depth):
     out = [t for t in tg.curated() if not (t.flags & (tg.F_HANDLE | tg.F_AMBIGUOUS)) and t.kind != "prim" or t.name in ("string", "u32", "i64")]
     out = [t for t in out if not t.cpp.startswith("std::reference_wrapper")]
+    # NOP_UNBOUNDED_BUFFER structures only exist at the head of caller-allocated storage: they are never embedded in generated types
+    # (their documented pairs are added as a top-level family in generate())
+    out = [t for t in out if not (t.flags & tg.F_UNBOUNDED)]
     seen = set()
     while len([1 for _ in seen]) < n_random:
         t = tg.random_type(rng, depth, allow_table=True)
@@ -299,6 +302,13 @@ def generate(outdir, seed, npairs):
             seen.add((a.cpp, b.cpp)); pairs.append((a, b, "entry-wise fungible tables / vector<T> ~ array<T,N>", True))
             a2 = tg.struct([tg.Member(tg.arr(P(en), n)), tg.Member(P("u8"))]); b2 = tg.struct([tg.Member(tg.vec(P(en))), tg.Member(P("u8"))])
             seen.add((a2.cpp, b2.cpp)); pairs.append((a2, b2, "member-wise fungible structures / vector<T> ~ array<T,N>", True))
+    # documented pair: unbounded logical buffer (C dynamic array header) ~ vector, alone and as the last member of a structure
+    tri = tg.struct([tg.Member(P("float")), tg.Member(P("i16"))], "STri")
+    for a, b in [(tg.ubuf(P("u32"), P("size_t"), "UBu32_szt", form="value"), tg.vec(P("u32"))),
+                 (tg.ubuf(P("u8"), P("u16"), "UBu8_u16", lead=[P("u8")]), tg.struct([tg.Member(P("u8")), tg.Member(tg.vec(P("u8")))])),
+                 (tg.ubuf(tri, P("u32"), "UBTri_u32", lead=[P("i32"), tg.enum("u8")]), tg.struct([tg.Member(P("i32")), tg.Member(tg.enum("u8")), tg.Member(tg.vec(tri))])),
+                 (tg.ubuf(P("i64"), P("int"), "UBi64_int", lead=[P("u16")], form="external"), tg.struct([tg.Member(P("u16")), tg.Member(tg.vec(P("i64")))]))]:
+        seen.add((a.cpp, b.cpp)); pairs.append((a, b, "unbounded logical buffer ~ vector", True))
     # near-miss family: sequence of integral elements vs logical buffer of wrapped integral elements (BIN vs ARY)
     for en in ["u32", "u8", "i64", "u16"]:
         if rng.random() < (0.8 if npairs < 300 else 1.0):
